@@ -70,6 +70,18 @@ def cells_image(index, e: ast.AST, depth: int = 6) -> Optional[Tuple[str, ast.AS
         return cells_image(index, e.args[0], depth - 1)
     if isinstance(e, ast.Set) and len(e.elts) == 1 and isinstance(e.elts[0], ast.Starred):
         return cells_image(index, e.elts[0].value, depth - 1)
+    # map(G.__getitem__, it) / map(G.get, it) / map(lambda p: E, it): the generator it abbreviates
+    if isinstance(e, ast.Call) and src(e.func) == 'map' and len(e.args) == 2 and not e.keywords:
+        fn, it = e.args
+        v = ast.Name('_mp', ast.Load())
+        if isinstance(fn, ast.Attribute) and fn.attr in ('__getitem__', 'get'):
+            elt: ast.AST = ast.Subscript(fn.value, v, ast.Load())
+        elif isinstance(fn, ast.Lambda) and len(fn.args.args) == 1 and not fn.args.defaults:
+            elt = _Sub({}, {fn.args.args[0].arg: v}).visit(copy.deepcopy(fn.body))
+        else:
+            return None
+        gen = ast.GeneratorExp(elt, [ast.comprehension(ast.Name('_mp', ast.Store()), it, [], 0)])
+        return cells_image(index, ast.fix_missing_locations(gen), depth - 1)
     # chain.from_iterable(G.objects) / chain(*G.objects)
     if isinstance(e, ast.Call) and src(e.func).endswith('chain.from_iterable') and \
             len(e.args) == 1 and src(e.args[0]).endswith('.objects'):
